@@ -4694,6 +4694,10 @@ class ResponseFuture(object):
         self._event.clear()
         self._final_result = _NOT_SET
         self._final_exception = None
+        # the previous page's timer was cancelled when that page completed; the
+        # request timeout applies to each page fetch
+        self._timer = None
+        self._start_time = time.time()
         self._start_timer()
         self.send_request()
 
